@@ -179,6 +179,12 @@ func (p *poller) Poll(timeoutMs int) (n int, err error) {
 		event := &p.events[i]
 
 		events := PollerEvent(event.Mask)
+		if events&(syscall.EPOLLERR|syscall.EPOLLHUP) != 0 {
+			// The kernel reports errors and hang-ups whether asked to or not, and not necessarily together with
+			// EPOLLIN/EPOLLOUT (e.g. a FIFO whose writer went away). Wake up whatever is registered: the handler
+			// retries its operation and observes the error or the end of the stream.
+			events |= PollerReadEvent | PollerWriteEvent
+		}
 		/* #nosec G103 -- the use of unsafe has been audited */
 		slot := *(**Slot)(unsafe.Pointer(&event.Data))
 
